@@ -205,6 +205,12 @@ func Run(p *pipeline.Pipe, it *pipeline.Item, d corpus.Decl, sc Script) *Result 
 		}
 	}
 	if len(res.Observations) == 0 {
+		// a nil dereference inside the generated injector's own goroutine kills the test binary
+		// before it can report: that crash of the real code is the observation
+		if strings.Contains(res.Output, "nil pointer dereference") && strings.Contains(res.Output, "/"+filepath.Base(dir)+"."+d.Name+".func") {
+			res.Observations = append(res.Observations, Observation{Panic: "nil pointer dereference inside a goroutine of the generated injector (a value read before it was written)"})
+			return res
+		}
 		res.Err = fmt.Errorf("no observation (%v): %s", err, tail(res.Output, 15))
 	}
 	return res
